@@ -19,7 +19,7 @@ const OPS: &[&str] = &["array_int", "array_float", "array_bool", "array_obj",
                        "manual_alloc", "manual_reuse", "bytes_alloc",
                        "string_repeat", "string_repeat_mb", "pad_left", "pad_right", "pad_left_mb", "pad_right_mb",
                        "replace_sq", "join_sq", "str_literal", "churn", "churn_mix", "churn_over", "bytes_many", "bytes_clone", "bytes_resize", "bytes_cycle", "bytes_from_string", "fs_read_bytes", "net_udp_recv_from", "net_udp_recv", "net_recv_bytes", "net_recv",
-                       "concat_double", "vec_new_lit", "closures"];
+                       "concat_double", "vec_new_lit", "closures", "string_derived"];
 
 /// (prelude, operation input).  The operation input is the same text for every size: the size is the
 /// global `n` set by the prelude, so that the compiled code (charged to the heap) is identical and
@@ -94,6 +94,9 @@ fn program(op: &str, n: i128, limit: u64) -> Option<(String, String)> {
         "churn_over" => "fn mk(k) {\n  return fn(x) { return x + k }\n}\nlet k1 = Array<Int>(rsv)\nlet mut t = 0\nlet mut i = 0\nwhile i < n {\n  let c = mk(i)\n  t = t + c(1)\n  i = i + 1\n}\nlet a = Array<Int>(rsv)\nlet b = Array<Int>(rsv)\nused = k1.len() + a.len() + b.len() + t - t\nused\n",
         // the same with a string, an array and a growing vec created and dropped in every iteration as well
         "churn_mix" => "fn mk(k) {\n  return fn(x) { return x + k }\n}\nlet mut t = 0\nlet mut i = 0\nwhile i < n {\n  let c = mk(i)\n  let s = sx + sx\n  let ar = Array<Int>(8)\n  let v = Vec<Int>[1, 2]\n  v.push(i)\n  v.push(i)\n  v.push(i)\n  t = t + c(1) + s.len() + ar.len() + v.len()\n  i = i + 1\n}\nlet a = Array<Int>(rsv)\nlet b = Array<Int>(rsv)\nused = a.len() + b.len() + t - t\nused\n",
+        // results of string natives that have no size pre-check of their own (the shared make_string helper is their only
+        // guard): a checked string of 16 n bytes, then two derived strings of the same size
+        "string_derived" => "let s = sx.repeat(n)\nlet t = s.to_upper()\nlet u = t.to_lower()\nused = s.len() + t.len() + u.len()\nused\n",
         "concat_double" => "let mut s = sx\nlet mut i = 0\nwhile i < n {\n  s = s + s\n  i = i + 1\n}\nused = s.len()\nused\n",
         "vec_new_lit" => "let v = Vec<Int>[1, 2, 3, 4]\nlet mut i = 0\nlet mut keep = Vec[v]\nwhile i < n {\n  keep.push(Vec<Int>[1, 2, 3, 4])\n  i = i + 1\n}\nused = keep.len()\nused\n",
         "closures" => "fn mk(k) {\n  return fn(x) { return x + k }\n}\nlet mut keep = Vec[mk(0)]\nlet mut i = 0\nwhile i < n {\n  keep.push(mk(i))\n  i = i + 1\n}\nused = keep.len()\nused\n",
@@ -305,7 +308,7 @@ fn sizes_for(op: &str, limit: u64, rng: &mut Rng, random: bool) -> Vec<i128> {
     // bytes per unit of `n` for the operation
     let unit: i128 = match op {
         "array_bool" | "bytes_alloc" | "pad_left" | "pad_right" | "vec_reserve_bool" => 1,
-        "pad_left_mb" | "pad_right_mb" => 3, "string_repeat_mb" => 6, "string_repeat" => 16, "manual_reuse" => 16, _ => 8 };
+        "pad_left_mb" | "pad_right_mb" => 3, "string_repeat_mb" => 6, "string_repeat" => 16, "manual_reuse" => 16, "string_derived" => 48, _ => 8 };
     if op.starts_with("churn") {
         // about 292 bytes of garbage per iteration: the collector runs every ~3 500 iterations at the 1 MiB threshold
         return if random { vec![rng.range_i64(0, 60_000) as i128] } else { vec![-1, 0, 1, 2, 100, 3000, 4000, 10_000, 40_000, 100_000] };
